@@ -131,4 +131,972 @@ theorem startRangeOp_top {q : List Nat} {c : Option (List Nat)} {s s1 : St} (hs 
           exact slice_free _ _ _ (by simpa using hc) r h1 h2 (by rw [hs.iu]; omega)
     · cases h
 
+
+/-- The two situations code can run in: outside any range with the invariant, or inside a range. -/
+def Ready (s : St) : Prop := (s.ranges = [] ∧ Inv s) ∨ (s.ranges ≠ [] ∧ s.rcols ≠ [] ∧ Shape s)
+
+theorem Ready.shape {s : St} (h : Ready s) : Shape s := by
+  rcases h with ⟨_, h⟩ | ⟨_, _, h⟩
+  · exact h.shape
+  · exact h
+
+theorem shape_of_fields {s s' : St} (h : Shape s) (hq : s'.nq = s.nq) (hc : s'.nc = s.nc)
+    (hr : s'.rcols = s.rcols) (hi : s'.inUse = s.inUse) : Shape s' :=
+  ⟨by rw [hr, total_eq hq hc]; exact h.cols, by rw [hi, total_eq hq hc]; exact h.iu⟩
+
+theorem open_range {q : List Nat} {c : Option (List Nat)} {s s1 : St} {bits : List Nat} (hr : Ready s)
+    (hb : getBitIndices s q c = .ok bits) (hne : bits ≠ []) (h : startRangeOp q c s = .ok s1) :
+    ∃ s0, Pre s s0 ∧ Wrote s0 s1 [] ∧ s1.ranges ≠ [] ∧ s1.rcols ≠ [] ∧ s1.ranges.tail = s.ranges ∧
+      s1.controlled = s.controlled ∧ Shape s1 ∧
+      (s.ranges = [] → Inv s0 ∧ ∀ x ∈ bits, s0.inUse[x]? = some false) := by
+  rcases hr with ⟨hr0, hinv⟩ | ⟨hrn, hcols, hsh⟩
+  · obtain ⟨bits', hb', hcase⟩ := startRangeOp_top hinv.shape hr0 h
+    rw [hb] at hb'; injection hb' with hb'; subst hb'
+    rcases hcase with ⟨he, _⟩ | ⟨s0, f, l, hs0, hs1, hl, hfree, hin⟩
+    · exact absurd he hne
+    · have hpre : Pre s s0 := by
+        rcases hs0 with rfl | rfl
+        · exact Or.inl rfl
+        · exact Or.inr ⟨hr0, rfl⟩
+      have hinv0 : Inv s0 := hpre.inv hinv
+      obtain ⟨x, hx⟩ := List.exists_mem_of_ne_nil bits hne
+      have hfx := hfree x (hin x hx).1 (hin x hx).2
+      have hcols0 : s0.rcols ≠ [] := by
+        intro he
+        have := hinv0.start he x false hfx
+        cases this
+      subst hs1
+      refine ⟨s0, hpre, wrote_nil_of hcols0 rfl rfl rfl rfl rfl (fun _ h => h), by simp, hcols0, ?_, ?_,
+        shape_of_fields hinv0.shape rfl rfl rfl rfl, ?_⟩
+      · simp [hr0]
+      · rcases hs0 with rfl | rfl <;> rfl
+      · intro _
+        exact ⟨hinv0, fun y hy => hfree y (hin y hy).1 (hin y hy).2⟩
+  · refine ⟨s, Or.inl rfl, ?_⟩
+    unfold startRangeOp at h
+    rw [hb] at h
+    simp only [Res.bind_ok] at h
+    split at h
+    · exact absurd rfl hne
+    · split at h
+      · rename_i hnil; exact absurd hnil hrn
+      · split at h
+        · injection h with h; subst h
+          rename_i hrs _
+          refine ⟨wrote_nil_of hcols rfl rfl rfl rfl rfl (fun _ h => h), by simp, hcols, by simp, rfl,
+            shape_of_fields hsh rfl rfl rfl rfl, fun h0 => absurd h0 hrn⟩
+        · cases h
+
+/-- Closing the range opened by `open_range`. -/
+theorem close_range {s2 s' : St} (hcols : s2.rcols ≠ []) (h : endRangeOp s2 = .ok s') :
+    Wrote s2 s' [] ∧ s'.ranges = s2.ranges.tail ∧ s'.controlled = s2.controlled :=
+  endRangeOp_wrote hcols h
+
+theorem Wrote.rcols_ne {a b : St} {ws} (h : Wrote a b ws) : b.rcols ≠ [] := by
+  obtain ⟨col, rest, _, hb, _⟩ := h.cols
+  rw [hb]; simp
+
+theorem Wrote.shape {a b : St} {ws} (h : Wrote a b ws) (hs : Shape a) : Shape b := by
+  obtain ⟨col, rest, ha, hb, _⟩ := h.cols
+  have ht : b.total = a.total := total_eq h.nq h.nc
+  refine ⟨?_, by rw [h.iuLen, ht]; exact hs.iu⟩
+  intro c hc
+  rw [hb] at hc
+  simp only [List.mem_cons] at hc
+  rw [ht]
+  rcases hc with rfl | hc
+  · rw [applyWrites_length]; exact hs.cols col (by rw [ha]; simp)
+  · exact hs.cols c (by rw [ha]; simp [hc])
+
+
+/-! ## Gates that are drawn in one column -/
+
+def ctrlOff (ctl t : Nat) (ts : List Nat) : Int :=
+  if ts.foldl min t > ctl ∧ ts.foldl max t > ctl then ((ts.foldl min t - ctl : Nat) : Int)
+  else ((ts.foldl max t : Nat) : Int) - (ctl : Int)
+
+/-- What a one-column gate writes (row, symbol), in the order it writes. -/
+def writes : Gate → List Nat → Bool → List (Nat × Sym)
+  | .box l _, b :: _, _ => [(b, .gate l none)]
+  | .x, b :: _, ctl => [(b, if ctl then .targ else .gate "X" none)]
+  | .z, b :: _, ctl => [(b, if ctl then .control else .gate "Z" none)]
+  | .swap, x0 :: x1 :: _, _ =>
+    [((if x1 < x0 then x1 else x0), .qswap (some (((if x1 < x0 then x0 else x1) - (if x1 < x0 then x1 else x0) : Nat) : Int))),
+     ((if x1 < x0 then x0 else x1), .qswap none)]
+  | .c g, ctl :: t :: ts, _ => (ctl, .ctrl (ctrlOff ctl t ts)) :: writes g (t :: ts) true
+  | _, _, _ => []
+
+/-- One-qubit boxes, X, Z, Swap and controlled versions of these (all library gates except I). -/
+def simple : Gate → Bool
+  | .box _ n => n == 1
+  | .x | .z | .swap => true
+  | .c g => simple g
+  | _ => false
+
+theorem getBitIndices_none {s : St} {q bits : List Nat} (h : getBitIndices s q none = .ok bits) : bits = q := by
+  unfold getBitIndices at h
+  split at h
+  · cases h
+  · injection h with h; exact h.symm
+
+theorem getBitIndices_none_ok_of_start {q : List Nat} {s s1 : St} (h : startRangeOp q none s = .ok s1) :
+    getBitIndices s q none = .ok q := by
+  unfold startRangeOp at h
+  obtain ⟨bits, hb, _⟩ := Res.bind_eq_ok.mp h
+  rw [hb, getBitIndices_none hb]
+
+theorem checkNrBits_ok {g : Gate} {bits : List Nat} {u : Unit} (h : checkNrBits g bits = .ok u) :
+    bits.length = g.nbits := by
+  unfold checkNrBits at h
+  split at h
+  · cases h
+  · rename_i hne; simp at hne; exact hne.symm
+
+/-- Body shared by all range gates: from a `Ready` state, open the range over `q`, run `body`
+inside it, close it. -/
+theorem range_gate {q : List Nat} {s s' : St} {ws : List (Nat × Sym)} {body : St → Res St} (hq : q ≠ [])
+    (hr : Ready s)
+    (hbody : ∀ s1 s2, s1.ranges ≠ [] → s1.rcols ≠ [] → Shape s1 → s1.controlled = s.controlled → body s1 = .ok s2 →
+      Wrote s1 s2 ws ∧ s2.ranges = s1.ranges ∧ s2.controlled = s1.controlled)
+    (hrows : ∀ p ∈ ws, p.1 ∈ q)
+    (h : (startRangeOp q none s >>== fun s1 => body s1 >>== endRangeOp) = .ok s') :
+    ∃ s0, Pre s s0 ∧ Wrote s0 s' ws ∧ s'.ranges = s.ranges ∧ s'.controlled = s.controlled ∧
+      (s.ranges = [] → Inv s0 ∧ ∀ p ∈ ws, s0.inUse[p.1]? = some false) := by
+  obtain ⟨s1, h1, h⟩ := Res.bind_eq_ok.mp h
+  obtain ⟨s2, h2, h3⟩ := Res.bind_eq_ok.mp h
+  obtain ⟨s0, hpre, hw0, hrn, hcn, htail, hctl, hsh, hfree⟩ :=
+    open_range hr (getBitIndices_none_ok_of_start h1) hq h1
+  obtain ⟨hw1, hr2, hc2⟩ := hbody s1 s2 hrn hcn hsh hctl h2
+  obtain ⟨hw2, hr3, hc3⟩ := close_range hw1.rcols_ne h3
+  refine ⟨s0, hpre, ?_, ?_, ?_, ?_⟩
+  · have := (hw0.trans hw1).trans hw2
+    simpa using this
+  · rw [hr3, hr2, htail]
+  · rw [hc3, hc2, hctl]
+  · intro h0
+    obtain ⟨hi, hf⟩ := hfree h0
+    exact ⟨hi, fun p hp => hf p.1 (hrows p hp)⟩
+
+
+theorem bind_assoc {α β γ} (r : Res α) (f : α → Res β) (g : β → Res γ) :
+    (r >>== f) >>== g = r >>== fun a => f a >>== g := by
+  cases r <;> rfl
+
+theorem setField_ready {b : Nat} {y : Sym} {s s' : St} (hr : Ready s) (h : setField b y s = .ok s') :
+    ∃ s0, Pre s s0 ∧ Wrote s0 s' [(b, y)] ∧ s'.ranges = s.ranges ∧ s'.controlled = s.controlled ∧
+      (s.ranges = [] → Inv s0 ∧ s0.inUse[b]? = some false) := by
+  rcases hr with ⟨hr0, hinv⟩ | ⟨hrn, _, _⟩
+  · unfold setField at h
+    simp only [hr0, List.isEmpty_nil, if_true] at h
+    obtain ⟨s0, h0, h⟩ := Res.bind_eq_ok.mp h
+    obtain ⟨hs0, hfree⟩ := reserve_top h0
+    have hpre : Pre s s0 := by
+      rcases hs0 with rfl | rfl
+      · exact Or.inl rfl
+      · exact Or.inr ⟨hr0, rfl⟩
+    have hfb := hfree b (by simp)
+    refine ⟨s0, hpre, ?_⟩
+    have hr00 : s0.ranges = s.ranges := by rcases hs0 with rfl | rfl <;> rfl
+    have hc00 : s0.controlled = s.controlled := by rcases hs0 with rfl | rfl <;> rfl
+    split at h
+    · cases h
+    · rename_i col rest hc
+      split at h
+      · rename_i hb
+        injection h with h; subst h
+        refine ⟨⟨⟨col, rest, hc, rfl, ?_⟩, rfl, rfl, rfl, by simp, ?_⟩, hr00, hc00, fun _ => ⟨hpre.inv hinv, hfb⟩⟩
+        · intro p hp; simp at hp; subst hp; exact hb.1
+        · intro r hr'
+          simp only [List.getElem?_set] at hr'
+          split at hr'
+          · split at hr' <;> simp at hr'
+          · rename_i hne
+            exact ⟨hr', by intro p hp; simp at hp; subst hp; exact hne⟩
+      · cases h
+  · obtain ⟨hw, h1, h2⟩ := setField_inRange hrn h
+    exact ⟨s, Or.inl rfl, hw, h1, h2, fun h0 => absurd h0 hrn⟩
+
+theorem writes_rows : ∀ (g : Gate) (bits : List Nat) (ctl : Bool), ∀ p ∈ writes g bits ctl, p.1 ∈ bits
+  | .box l n, bits, ctl => by
+    cases bits with
+    | nil => simp [writes]
+    | cons b bs => simp [writes]
+  | .x, bits, ctl => by
+    cases bits with
+    | nil => simp [writes]
+    | cons b bs => simp [writes]
+  | .z, bits, ctl => by
+    cases bits with
+    | nil => simp [writes]
+    | cons b bs => simp [writes]
+  | .i, bits, ctl => by simp [writes]
+  | .swap, bits, ctl => by
+    match bits with
+    | [] => simp [writes]
+    | [_] => simp [writes]
+    | x0 :: x1 :: rest =>
+      simp only [writes, List.mem_cons, List.not_mem_nil, or_false]
+      intro p hp
+      rcases hp with rfl | rfl <;> (dsimp only; split <;> simp)
+  | .c g, bits, ctl => by
+    match bits with
+    | [] => simp [writes]
+    | [_] => simp [writes]
+    | c0 :: t :: ts =>
+      simp only [writes, List.mem_cons]
+      intro p hp
+      rcases hp with rfl | hp
+      · simp
+      · have := writes_rows g (t :: ts) true p hp
+        simp only [List.mem_cons] at this
+        exact Or.inr this
+  | .kron a b, bits, ctl => by simp [writes]
+  | .comp _ _ _, bits, ctl => by simp [writes]
+  | .loop _ _, bits, ctl => by simp [writes]
+
+theorem wrote_ctl {s : St} (hne : s.rcols ≠ []) (b : Bool) : Wrote s { s with controlled := b } [] :=
+  wrote_nil_of hne rfl rfl rfl rfl rfl (fun _ h => h)
+
+theorem pre_inRange {s s0 : St} (hp : Pre s s0) (hr : s.ranges ≠ []) : s0 = s := by
+  rcases hp with rfl | ⟨h0, _⟩
+  · rfl
+  · exact absurd h0 hr
+
+
+/-- What a one-column gate does to the state, outside or inside a range. -/
+def SimpleSpec (g : Gate) (bits : List Nat) (s s' : St) : Prop :=
+  ∃ s0, Pre s s0 ∧ Wrote s0 s' (writes g bits s.controlled) ∧ s'.ranges = s.ranges ∧
+    s'.controlled = s.controlled ∧
+    (s.ranges = [] → Inv s0 ∧ ∀ p ∈ writes g bits s.controlled, s0.inUse[p.1]? = some false)
+
+theorem simple_spec : ∀ (g : Gate), simple g = true → ∀ (bits : List Nat) (s s' : St), Ready s →
+    latex g bits s = .ok s' → SimpleSpec g bits s s'
+  | .box l n, hs, bits, s, s', hr, h => by
+    simp only [simple, beq_iff_eq] at hs; subst hs
+    simp only [latex] at h
+    obtain ⟨u, hu, h⟩ := Res.bind_eq_ok.mp h
+    have hlen := checkNrBits_ok hu
+    match bits, hlen with
+    | [b], _ =>
+      have hg : getRanges [b] = some [(b, b)] := by simp [getRanges, sortNat, insertNat, rangesGo]
+      simp only [addBlockGate, hg] at h
+      have h' : (startRangeOp [b] none s >>== fun s1 =>
+          (fun s1 => drawRange b b l none s1 >>== fun s => blockRest l [] b s) s1 >>== endRangeOp) = .ok s' := by
+        simpa [bind_assoc] using h
+      refine range_gate (ws := writes (.box l 1) [b] s.controlled) (by simp) hr ?_ ?_ h'
+      · intro s1 s2 hrn hcn hsh _ hb
+        simp only [drawRange, if_true, blockRest] at hb
+        obtain ⟨s2', hb1, hb2⟩ := Res.bind_eq_ok.mp hb
+        injection hb2 with hb2; subst hb2
+        obtain ⟨hw, h1, h2⟩ := setField_inRange hrn hb1
+        exact ⟨by simpa [writes] using hw, h1, h2⟩
+      · intro p hp; exact writes_rows _ _ _ p hp
+  | .x, _, bits, s, s', hr, h => by
+    simp only [latex] at h
+    obtain ⟨u, hu, h⟩ := Res.bind_eq_ok.mp h
+    split at h
+    · rename_i b rest
+      obtain ⟨s0, hp, hw, h1, h2, h3⟩ := setField_ready hr h
+      exact ⟨s0, hp, by simpa [writes] using hw, h1, h2, fun h0 => ⟨(h3 h0).1, by simpa [writes] using (h3 h0).2⟩⟩
+    · cases h
+  | .z, _, bits, s, s', hr, h => by
+    simp only [latex] at h
+    obtain ⟨u, hu, h⟩ := Res.bind_eq_ok.mp h
+    split at h
+    · rename_i b rest
+      obtain ⟨s0, hp, hw, h1, h2, h3⟩ := setField_ready hr h
+      exact ⟨s0, hp, by simpa [writes] using hw, h1, h2, fun h0 => ⟨(h3 h0).1, by simpa [writes] using (h3 h0).2⟩⟩
+    · cases h
+  | .swap, _, bits, s, s', hr, h => by
+    simp only [latex] at h
+    obtain ⟨u, hu, h⟩ := Res.bind_eq_ok.mp h
+    cases bits with
+    | nil => cases h
+    | cons x0 r =>
+      cases r with
+      | nil => cases h
+      | cons x1 rest =>
+        dsimp only at h
+        have h' : (startRangeOp (x0 :: x1 :: rest) none s >>== fun s1 =>
+            (fun s1 => setField (if x1 < x0 then x1 else x0)
+                (.qswap (some (((if x1 < x0 then x0 else x1) - (if x1 < x0 then x1 else x0) : Nat) : Int))) s1 >>== fun s =>
+              setField (if x1 < x0 then x0 else x1) (.qswap none) s) s1 >>== endRangeOp) = .ok s' := by
+          simpa [bind_assoc] using h
+        refine range_gate (ws := writes .swap (x0 :: x1 :: rest) s.controlled) (by simp) hr ?_ ?_ h'
+        · intro s1 s2 hrn hcn hsh _ hb
+          obtain ⟨s1', hb1, hb2⟩ := Res.bind_eq_ok.mp hb
+          obtain ⟨hw1, hr1, hc1⟩ := setField_inRange hrn hb1
+          obtain ⟨hw2, hr2, hc2⟩ := setField_inRange (by rw [hr1]; exact hrn) hb2
+          exact ⟨by simpa [writes] using hw1.trans hw2, hr2.trans hr1, hc2.trans hc1⟩
+        · intro p hp; exact writes_rows _ _ _ p hp
+  | .c g, hs, bits, s, s', hr, h => by
+    simp only [simple] at hs
+    simp only [latex] at h
+    obtain ⟨u, hu, h⟩ := Res.bind_eq_ok.mp h
+    match bits, h with
+    | [], h =>
+      obtain ⟨s1, _, h⟩ := Res.bind_eq_ok.mp h
+      cases h
+    | [_], h =>
+      obtain ⟨s1, _, h⟩ := Res.bind_eq_ok.mp h
+      cases h
+    | ctl :: t :: ts, h =>
+      dsimp only at h
+      have h' : (startRangeOp (ctl :: t :: ts) none s >>== fun s1 =>
+          (fun s1 =>
+            (if ts.foldl min t > ctl ∧ ts.foldl max t > ctl then
+                setField ctl (.ctrl ((ts.foldl min t - ctl : Nat) : Int)) s1
+              else if ts.foldl min t < ctl ∧ ts.foldl max t < ctl then
+                setField ctl (.ctrl (((ts.foldl max t : Nat) : Int) - (ctl : Int))) s1
+              else .panic) >>== fun s2 =>
+            latex g (t :: ts) { s2 with controlled := true } >>== fun s3 =>
+            .ok { s3 with controlled := s2.controlled }) s1 >>== endRangeOp) = .ok s' := by
+        simpa [bind_assoc] using h
+      refine range_gate (ws := writes (.c g) (ctl :: t :: ts) s.controlled) (by simp) hr ?_ ?_ h'
+      · intro s1 s2 hrn hcn hsh hctl hb
+        obtain ⟨sa, hb1, hb⟩ := Res.bind_eq_ok.mp hb
+        obtain ⟨sb, hb2, hb3⟩ := Res.bind_eq_ok.mp hb
+        injection hb3 with hb3; subst hb3
+        have hsf : setField ctl (.ctrl (ctrlOff ctl t ts)) s1 = .ok sa := by
+          unfold ctrlOff
+          split at hb1
+          · rename_i hc; rw [if_pos hc]; exact hb1
+          · rename_i hc
+            rw [if_neg hc]
+            split at hb1
+            · exact hb1
+            · cases hb1
+        obtain ⟨hw1, hr1, hc1⟩ := setField_inRange hrn hsf
+        have hrdy : Ready { sa with controlled := true } :=
+          Or.inr ⟨by show sa.ranges ≠ []; rw [hr1]; exact hrn, hw1.rcols_ne,
+            shape_of_fields (hw1.shape hsh) rfl rfl rfl rfl⟩
+        obtain ⟨s0, hp0, hw2, hr2, hc2, _⟩ := simple_spec g hs (t :: ts) _ sb hrdy hb2
+        have := pre_inRange hp0 (by show sa.ranges ≠ []; rw [hr1]; exact hrn)
+        subst this
+        have hwa := (hw1.trans (wrote_ctl hw1.rcols_ne true)).trans hw2
+        have hwb := hwa.trans (wrote_ctl hw2.rcols_ne sa.controlled)
+        refine ⟨by simpa [writes] using hwb, ?_, ?_⟩
+        · show sb.ranges = s1.ranges
+          rw [hr2]; exact hr1
+        · show sa.controlled = s1.controlled
+          exact hc1
+      · intro p hp; exact writes_rows _ _ _ p hp
+
+
+/-- Operand list fits the gate and every control lies outside the span of its targets. -/
+def goodPlace : Gate → List Nat → Bool
+  | .c g, ctl :: t :: ts =>
+    ((ts.foldl min t > ctl && ts.foldl max t > ctl) || (ts.foldl min t < ctl && ts.foldl max t < ctl)) &&
+      goodPlace g (t :: ts)
+  | .swap, [_, _] => true
+  | .box _ _, [_] => true
+  | .x, [_] => true
+  | .z, [_] => true
+  | _, _ => false
+
+theorem writes_cover : ∀ (g : Gate) (bits : List Nat) (ctl : Bool), simple g = true → goodPlace g bits = true →
+    ∀ b ∈ bits, ∃ p ∈ writes g bits ctl, p.1 = b ∧ p.2.isGatePart = true
+  | .box l n, [b], ctl, _, _ => by simp [writes, Sym.isGatePart]
+  | .x, [b], ctl, _, _ => by cases ctl <;> simp [writes, Sym.isGatePart]
+  | .z, [b], ctl, _, _ => by cases ctl <;> simp [writes, Sym.isGatePart]
+  | .swap, [x0, x1], ctl, _, _ => by
+    intro b hb
+    simp only [List.mem_cons, List.not_mem_nil, or_false] at hb
+    simp only [writes, List.mem_cons, List.not_mem_nil, or_false]
+    by_cases h : x1 < x0
+    · rcases hb with rfl | rfl
+      · exact ⟨_, Or.inr rfl, by simp [h], by simp [Sym.isGatePart]⟩
+      · exact ⟨_, Or.inl rfl, by simp [h], by simp [Sym.isGatePart]⟩
+    · rcases hb with rfl | rfl
+      · exact ⟨_, Or.inl rfl, by simp [h], by simp [Sym.isGatePart]⟩
+      · exact ⟨_, Or.inr rfl, by simp [h], by simp [Sym.isGatePart]⟩
+  | .c g, c0 :: t :: ts, ctl, hs, hg => by
+    simp only [simple] at hs
+    simp only [goodPlace, Bool.and_eq_true] at hg
+    intro b hb
+    simp only [List.mem_cons] at hb
+    simp only [writes, List.mem_cons]
+    rcases hb with rfl | hb
+    · exact ⟨_, Or.inl rfl, rfl, by simp [Sym.isGatePart]⟩
+    · obtain ⟨p, hp, h1, h2⟩ := writes_cover g (t :: ts) true hs hg.2 b (by simpa using hb)
+      exact ⟨p, Or.inr hp, h1, h2⟩
+  | .box _ _, [], _, _, hg | .box _ _, _ :: _ :: _, _, _, hg => by simp [goodPlace] at hg
+  | .x, [], _, _, hg | .x, _ :: _ :: _, _, _, hg => by simp [goodPlace] at hg
+  | .z, [], _, _, hg | .z, _ :: _ :: _, _, _, hg => by simp [goodPlace] at hg
+  | .swap, [], _, _, hg | .swap, [_], _, _, hg | .swap, _ :: _ :: _ :: _, _, _, hg => by simp [goodPlace] at hg
+  | .c _, [], _, _, hg | .c _, [_], _, _, hg => by simp [goodPlace] at hg
+  | .i, _, _, hs, _ | .kron _ _, _, _, hs, _ | .comp _ _ _, _, _, hs, _ | .loop _ _, _, _, hs, _ => by
+    simp [simple] at hs
+
+theorem writes_closed : ∀ (g : Gate) (bits : List Nat) (ctl : Bool), simple g = true → goodPlace g bits = true →
+    ∀ p ∈ writes g bits ctl, ∀ l ∈ p.2.lines,
+      ∃ q ∈ writes g bits ctl, (p.1 : Int) + l.1 = (q.1 : Int) ∧ Sym.partnerOk l.2 q.2 = true
+  | .box l n, [b], ctl, _, _ => by simp [writes, Sym.lines]
+  | .x, [b], ctl, _, _ => by cases ctl <;> simp [writes, Sym.lines]
+  | .z, [b], ctl, _, _ => by cases ctl <;> simp [writes, Sym.lines]
+  | .swap, [x0, x1], ctl, _, _ => by
+    intro p hp l hl
+    simp only [writes, List.mem_cons, List.not_mem_nil, or_false] at hp
+    rcases hp with rfl | rfl
+    · simp only [Sym.lines, List.mem_cons, List.not_mem_nil, or_false] at hl
+      subst hl
+      refine ⟨_, by simp only [writes, List.mem_cons, List.not_mem_nil, or_false]; exact Or.inr rfl, ?_, by simp [Sym.partnerOk, Sym.isGatePart]⟩
+      by_cases h : x1 < x0 <;> simp [h] <;> omega
+    · simp [Sym.lines] at hl
+  | .c g, c0 :: t :: ts, ctl, hs, hg => by
+    simp only [simple] at hs
+    simp only [goodPlace, Bool.and_eq_true, Bool.or_eq_true, decide_eq_true_eq] at hg
+    intro p hp l hl
+    simp only [writes, List.mem_cons] at hp
+    rcases hp with rfl | hp
+    · simp only [Sym.lines, List.mem_cons, List.not_mem_nil, or_false] at hl
+      subst hl
+      -- the row the control line ends on
+      have hrow : ∃ m ∈ t :: ts, (c0 : Int) + ctrlOff c0 t ts = (m : Int) := by
+        unfold ctrlOff
+        by_cases hc : ts.foldl min t > c0 ∧ ts.foldl max t > c0
+        · refine ⟨ts.foldl min t, foldl_min_mem ts t, ?_⟩
+          rw [if_pos hc]; omega
+        · refine ⟨ts.foldl max t, foldl_max_mem ts t, ?_⟩
+          rw [if_neg hc]; omega
+      obtain ⟨m, hm, hme⟩ := hrow
+      obtain ⟨q, hq, hq1, hq2⟩ := writes_cover g (t :: ts) true hs hg.2 m hm
+      refine ⟨q, ?_, ?_, ?_⟩
+      · simp only [writes, List.mem_cons]; exact Or.inr hq
+      · rw [hq1]; exact hme
+      · simpa [Sym.partnerOk] using hq2
+    · obtain ⟨q, hq, h1, h2⟩ := writes_closed g (t :: ts) true hs hg.2 p hp l hl
+      exact ⟨q, by simp only [writes, List.mem_cons]; exact Or.inr hq, h1, h2⟩
+  | .box _ _, [], _, _, hg | .box _ _, _ :: _ :: _, _, _, hg => by simp [goodPlace] at hg
+  | .x, [], _, _, hg | .x, _ :: _ :: _, _, _, hg => by simp [goodPlace] at hg
+  | .z, [], _, _, hg | .z, _ :: _ :: _, _, _, hg => by simp [goodPlace] at hg
+  | .swap, [], _, _, hg | .swap, [_], _, _, hg | .swap, _ :: _ :: _ :: _, _, _, hg => by simp [goodPlace] at hg
+  | .c _, [], _, _, hg | .c _, [_], _, _, hg => by simp [goodPlace] at hg
+  | .i, _, _, hs, _ | .kron _ _, _, _, hs, _ | .comp _ _ _, _, _, hs, _ | .loop _ _, _, _, hs, _ => by
+    simp [simple] at hs
+
+/-- Rows written are distinct when the operands are. -/
+theorem writes_nodup : ∀ (g : Gate) (bits : List Nat) (ctl : Bool), bits.Nodup →
+    ((writes g bits ctl).map (·.1)).Nodup
+  | .box l n, bits, ctl, _ => by cases bits <;> simp [writes]
+  | .x, bits, ctl, _ => by cases bits <;> simp [writes]
+  | .z, bits, ctl, _ => by cases bits <;> simp [writes]
+  | .i, bits, ctl, _ => by simp [writes]
+  | .swap, bits, ctl, hn => by
+    match bits, hn with
+    | [], _ => simp [writes]
+    | [_], _ => simp [writes]
+    | x0 :: x1 :: rest, hn =>
+      have : x0 ≠ x1 := by
+        intro e; subst e; simp at hn
+      simp only [writes, List.map_cons, List.map_nil, List.nodup_cons, List.mem_cons, List.not_mem_nil,
+        or_false, not_false_eq_true, List.nodup_nil, and_true]
+      by_cases h : x1 < x0 <;> simp [h] <;> omega
+  | .c g, bits, ctl, hn => by
+    match bits, hn with
+    | [], _ => simp [writes]
+    | [_], _ => simp [writes]
+    | c0 :: t :: ts, hn =>
+      simp only [writes, List.map_cons, List.nodup_cons]
+      have hn' := List.nodup_cons.mp hn
+      refine ⟨?_, writes_nodup g (t :: ts) true hn'.2⟩
+      intro hmem
+      obtain ⟨p, hp, hp1⟩ := List.mem_map.mp hmem
+      have := writes_rows g (t :: ts) true p hp
+      rw [hp1] at this
+      exact hn'.1 this
+  | .kron _ _, bits, ctl, _ => by simp [writes]
+  | .comp _ _ _, bits, ctl, _ => by simp [writes]
+  | .loop _ _, bits, ctl, _ => by simp [writes]
+
+
+/-- **Frame step.** Writing a closed group of symbols into free fields of the last column of a state
+that satisfies the invariant gives a state that satisfies it (once the range is closed). -/
+theorem inv_of_wrote {s0 s' : St} {ws : List (Nat × Sym)} (hinv : Inv s0) (hw : Wrote s0 s' ws)
+    (hr : s'.ranges = []) (hfree : ∀ p ∈ ws, s0.inUse[p.1]? = some false)
+    (hnd : (ws.map (·.1)).Nodup)
+    (hclosed : ∀ p ∈ ws, ∀ l ∈ p.2.lines, ∃ q ∈ ws, (p.1 : Int) + l.1 = (q.1 : Int) ∧ Sym.partnerOk l.2 q.2 = true) :
+    Inv s' := by
+  obtain ⟨col, rest, h0, h1, hlt⟩ := hw.cols
+  have hempty : ∀ p ∈ ws, symAt col p.1 = none := fun p hp =>
+    symAt_none_of_empty (hinv.free col rest h0 p.1 (hfree p hp))
+  refine ⟨hw.shape hinv.shape, hr, ?_, ?_, ?_⟩
+  · intro col' rest' hc r hrf
+    rw [h1] at hc; injection hc with hc _; subst hc
+    obtain ⟨hf0, hne⟩ := hw.iu r hrf
+    rw [applyWrites_get_other _ ws col r hne]
+    exact hinv.free col rest h0 r hf0
+  · intro he; rw [h1] at he; cases he
+  · intro c hc
+    rw [h1] at hc
+    simp only [List.mem_cons] at hc
+    rcases hc with rfl | hc
+    · exact colOK_applyWrites _ ws col (hinv.ok col (by rw [h0]; simp)) hnd hlt hempty hclosed
+    · exact hinv.ok c (by rw [h0]; simp [hc])
+
+theorem ready_top {s : St} (h : Inv s) : Ready s := Or.inl ⟨h.noRange, h⟩
+
+/-- A one-column gate outside a range keeps the invariant. -/
+theorem inv_simple {g : Gate} {bits : List Nat} {s s' : St} (hinv : Inv s) (hs : simple g = true)
+    (hg : goodPlace g bits = true) (hn : bits.Nodup) (h : latex g bits s = .ok s') : Inv s' := by
+  obtain ⟨s0, _, hw, hr, _, hfree⟩ := simple_spec g hs bits s s' (ready_top hinv) h
+  obtain ⟨hi0, hf⟩ := hfree hinv.noRange
+  exact inv_of_wrote hi0 hw (by rw [hr]; exact hinv.noRange) hf (writes_nodup g bits _ hn)
+    (writes_closed g bits _ hs hg)
+
+/-- A symbol without lines written outside a range keeps the invariant. -/
+theorem inv_setField {b : Nat} {y : Sym} {s s' : St} (hinv : Inv s) (hy : y.lines = [])
+    (h : setField b y s = .ok s') : Inv s' := by
+  obtain ⟨s0, _, hw, hr, _, hfree⟩ := setField_ready (ready_top hinv) h
+  obtain ⟨hi0, hf⟩ := hfree hinv.noRange
+  refine inv_of_wrote hi0 hw (by rw [hr]; exact hinv.noRange) ?_ (by simp) ?_
+  · intro p hp; simp at hp; subst hp; exact hf
+  · intro p hp l hl; simp at hp; subst hp; rw [hy] at hl; cases hl
+
+theorem inv_reserveAll {s : St} (h : Inv s) : Inv (reserveAll s) := by
+  unfold reserveAll; split
+  · exact inv_addColumn h
+  · exact h
+
+theorem inv_of_fields {s s' : St} (h : Inv s) (hq : s'.nq = s.nq) (hc : s'.nc = s.nc)
+    (hr : s'.rcols = s.rcols) (hi : s'.inUse = s.inUse) (hg : s'.ranges = s.ranges) : Inv s' :=
+  ⟨shape_of_fields h.shape hq hc hr hi, by rw [hg]; exact h.noRange,
+   by rw [hr, hi]; exact h.free, by rw [hr, hi]; exact h.start, by rw [hr]; exact h.ok⟩
+
+theorem inv_startLoop {n : Nat} {s s' : St} (hinv : Inv s) (h : startLoop n s = .ok s') : Inv s' := by
+  unfold startLoop at h
+  dsimp only at h
+  split at h
+  · cases h
+  · injection h with h; subst h
+    exact inv_of_fields (inv_reserveAll hinv) rfl rfl rfl rfl rfl
+
+theorem inv_endLoop {s s' : St} (hinv : Inv s) (h : endLoop s = .ok s') : Inv s' := by
+  unfold endLoop at h
+  split at h
+  · cases h
+  · split at h
+    · cases h
+    · injection h with h; subst h
+      exact inv_reserveAll (inv_of_fields hinv rfl rfl rfl rfl rfl)
+
+theorem inv_addCds {b c : Nat} {l : String} {s s' : St} (hinv : Inv s) (h : addCds b c l s = .ok s') : Inv s' := by
+  unfold addCds at h
+  obtain ⟨s1, h1, h⟩ := Res.bind_eq_ok.mp h
+  injection h with h; subst h
+  exact inv_reserveAll (inv_setField (inv_reserveAll hinv) rfl h1)
+
+theorem inv_barrierLoop {rs : List (Nat × Nat)} {s s' : St} (hinv : Inv s) (h : barrierLoop rs s = .ok s') :
+    Inv s' := by
+  induction rs generalizing s with
+  | nil => simp [barrierLoop] at h; subst h; exact hinv
+  | cons x rest ih =>
+    obtain ⟨f, l⟩ := x
+    simp only [barrierLoop] at h
+    obtain ⟨s1, h1, h⟩ := Res.bind_eq_ok.mp h
+    exact ih (inv_setField hinv rfl h1) h
+
+theorem inv_setBarrier {q : List Nat} {s s' : St} (hinv : Inv s) (h : setBarrier q s = .ok s') : Inv s' := by
+  unfold setBarrier at h
+  split at h
+  · cases h
+  · split at h
+    · cases h
+    · exact inv_barrierLoop (inv_addColumn hinv) h
+
+
+/-- As `range_gate`, for a range over quantum and classical bits. -/
+theorem range_op {q : List Nat} {c : Option (List Nat)} {bits : List Nat} {s s' : St} {ws : List (Nat × Sym)}
+    {body : St → Res St} (hb : getBitIndices s q c = .ok bits) (hq : bits ≠ []) (hr : Ready s)
+    (hbody : ∀ s1 s2, s1.ranges ≠ [] → s1.rcols ≠ [] → Shape s1 → s1.controlled = s.controlled →
+      s1.nq = s.nq → s1.nc = s.nc → body s1 = .ok s2 →
+      Wrote s1 s2 ws ∧ s2.ranges = s1.ranges ∧ s2.controlled = s1.controlled)
+    (hrows : ∀ p ∈ ws, p.1 ∈ bits)
+    (h : (startRangeOp q c s >>== fun s1 => body s1 >>== endRangeOp) = .ok s') :
+    ∃ s0, Pre s s0 ∧ Wrote s0 s' ws ∧ s'.ranges = s.ranges ∧ s'.controlled = s.controlled ∧
+      (s.ranges = [] → Inv s0 ∧ ∀ p ∈ ws, s0.inUse[p.1]? = some false) := by
+  obtain ⟨s1, h1, h⟩ := Res.bind_eq_ok.mp h
+  obtain ⟨s2, h2, h3⟩ := Res.bind_eq_ok.mp h
+  obtain ⟨s0, hpre, hw0, hrn, hcn, htail, hctl, hsh, hfree⟩ := open_range hr hb hq h1
+  have hq1 : s1.nq = s.nq := by
+    rw [hw0.nq]; rcases hpre with rfl | ⟨_, rfl⟩ <;> rfl
+  have hc1 : s1.nc = s.nc := by
+    rw [hw0.nc]; rcases hpre with rfl | ⟨_, rfl⟩ <;> rfl
+  obtain ⟨hw1, hr2, hc2⟩ := hbody s1 s2 hrn hcn hsh hctl hq1 hc1 h2
+  obtain ⟨hw2, hr3, hc3⟩ := close_range hw1.rcols_ne h3
+  refine ⟨s0, hpre, ?_, ?_, ?_, ?_⟩
+  · have := (hw0.trans hw1).trans hw2
+    simpa using this
+  · rw [hr3, hr2, htail]
+  · rw [hc3, hc2, hctl]
+  · intro h0
+    obtain ⟨hi, hf⟩ := hfree h0
+    exact ⟨hi, fun p hp => hf p.1 (hrows p hp)⟩
+
+theorem getBitIndices_meas {s : St} {q c : Nat} {bits : List Nat}
+    (h : getBitIndices s [q] (some [c]) = .ok bits) : bits = [q, s.nq + c] ∧ q < s.nq := by
+  unfold getBitIndices at h
+  split at h
+  · cases h
+  · rename_i hf
+    have hq : q < s.nq := by
+      have := List.find?_eq_none.mp hf q (by simp)
+      simpa using this
+    dsimp only at h
+    split at h
+    · cases h
+    · injection h with h; exact ⟨by rw [← h]; simp, hq⟩
+
+theorem inv_setMeasurement {q c : Nat} {b : Option String} {s s' : St} (hinv : Inv s)
+    (h : setMeasurement q c b s = .ok s') : Inv s' := by
+  unfold setMeasurement at h
+  dsimp only at h
+  obtain ⟨sx, hx, _⟩ := Res.bind_eq_ok.mp h
+  have hbx : ∃ bits, getBitIndices s [q] (some [c]) = .ok bits := by
+    unfold startRangeOp at hx
+    obtain ⟨bits, hb, _⟩ := Res.bind_eq_ok.mp hx
+    exact ⟨bits, hb⟩
+  obtain ⟨bits, hb⟩ := hbx
+  obtain ⟨hbits, hq⟩ := getBitIndices_meas hb
+  subst hbits
+  have h' : (startRangeOp [q] (some [c]) s >>== fun s1 =>
+      (fun s1 => setField q (.meter b) s1 >>== fun s2 =>
+        setField (s.nq + c) (.cwx ((q : Int) - ((s.nq + c : Nat) : Int))) s2) s1 >>== endRangeOp) = .ok s' := by
+    simpa [bind_assoc] using h
+  obtain ⟨s0, _, hw, hr, _, hfree⟩ := range_op (ws := [(q, .meter b), (s.nq + c, .cwx ((q : Int) - ((s.nq + c : Nat) : Int)))])
+    hb (by simp) (ready_top hinv) (by
+      intro s1 s2 hrn _ _ _ _ _ hbody
+      obtain ⟨sa, ha, hb2⟩ := Res.bind_eq_ok.mp hbody
+      obtain ⟨hw1, hr1, hc1⟩ := setField_inRange hrn ha
+      obtain ⟨hw2, hr2, hc2⟩ := setField_inRange (by rw [hr1]; exact hrn) hb2
+      exact ⟨by simpa using hw1.trans hw2, hr2.trans hr1, hc2.trans hc1⟩)
+    (by intro p hp; simp at hp; rcases hp with rfl | rfl <;> simp) h'
+  obtain ⟨hi0, hf⟩ := hfree hinv.noRange
+  refine inv_of_wrote hi0 hw (by rw [hr]; exact hinv.noRange) hf ?_ ?_
+  · simp; omega
+  · intro p hp l hl
+    simp only [List.mem_cons, List.not_mem_nil, or_false] at hp
+    rcases hp with rfl | rfl
+    · simp [Sym.lines] at hl
+    · simp only [Sym.lines, List.mem_cons, List.not_mem_nil, or_false] at hl
+      subst hl
+      exact ⟨(q, .meter b), by simp, by simp; omega, by simp [Sym.partnerOk]⟩
+
+theorem inv_measureAllLoop {b : Option String} {cs : List Nat} {q : Nat} {s s' : St} (hinv : Inv s)
+    (h : measureAllLoop b cs q s = .ok s') : Inv s' := by
+  induction cs generalizing q s with
+  | nil => simp [measureAllLoop] at h; subst h; exact hinv
+  | cons c rest ih =>
+    simp only [measureAllLoop] at h
+    obtain ⟨s1, h1, h⟩ := Res.bind_eq_ok.mp h
+    exact ih (inv_setMeasurement hinv h1) h
+
+/-! ## Gates outside a range -/
+
+mutual
+/-- Placements covered by the theorem: one-column gates (1-qubit boxes, X, Z, Swap, controlled
+versions with the control outside the span of the targets) on distinct qubits; I; Kron, Composite and
+Loop of such. -/
+def topOk : Gate → List Nat → Bool
+  | .i, _ => true
+  | .kron a b, bits => topOk a (bits.take a.nbits) && topOk b (bits.drop a.nbits)
+  | .comp _ _ ops, bits => topOkSubs ops bits
+  | .loop _ body, bits => topOk body bits
+  | .box l n, bits => simple (.box l n) && goodPlace (.box l n) bits && decide bits.Nodup
+  | .x, bits => goodPlace .x bits
+  | .z, bits => goodPlace .z bits
+  | .swap, bits => goodPlace .swap bits && decide bits.Nodup
+  | .c g, bits => simple g && goodPlace (.c g) bits && decide bits.Nodup
+def topOkSubs : Subs → List Nat → Bool
+  | .nil, _ => true
+  | .cons g sb rest, bits =>
+    (match subBits bits sb with
+     | some gb => topOk g gb
+     | none => true) && topOkSubs rest bits
+end
+
+mutual
+theorem inv_latex : ∀ (g : Gate) (bits : List Nat) (s s' : St), Inv s → s.expand = true → topOk g bits = true →
+    latex g bits s = .ok s' → Inv s'
+  | .box l n, bits, s, s', hinv, _, ht, h => by
+    simp only [topOk, Bool.and_eq_true, decide_eq_true_eq] at ht
+    exact inv_simple hinv ht.1.1 ht.1.2 ht.2 h
+  | .x, bits, s, s', hinv, _, ht, h => by
+    simp only [topOk] at ht
+    have hn : bits.Nodup := by
+      match bits, ht with
+      | [b], _ => simp
+    exact inv_simple hinv rfl ht hn h
+  | .z, bits, s, s', hinv, _, ht, h => by
+    simp only [topOk] at ht
+    have hn : bits.Nodup := by
+      match bits, ht with
+      | [b], _ => simp
+    exact inv_simple hinv rfl ht hn h
+  | .swap, bits, s, s', hinv, _, ht, h => by
+    simp only [topOk, Bool.and_eq_true, decide_eq_true_eq] at ht
+    exact inv_simple hinv rfl ht.1 ht.2 h
+  | .c g, bits, s, s', hinv, _, ht, h => by
+    simp only [topOk, Bool.and_eq_true, decide_eq_true_eq] at ht
+    exact inv_simple hinv (by simpa [simple] using ht.1.1) ht.1.2 ht.2 h
+  | .i, bits, s, s', hinv, _, _, h => by
+    simp only [latex] at h
+    obtain ⟨_, _, h⟩ := Res.bind_eq_ok.mp h
+    split at h
+    · exact inv_setField hinv rfl h
+    · cases h
+  | .kron a b, bits, s, s', hinv, he, ht, h => by
+    simp only [topOk, Bool.and_eq_true] at ht
+    simp only [latex] at h
+    obtain ⟨_, _, h⟩ := Res.bind_eq_ok.mp h
+    obtain ⟨s1, h1, h⟩ := Res.bind_eq_ok.mp h
+    have i1 := inv_latex a _ s s1 hinv he ht.1 h1
+    have e1 : s1.expand = true := by rw [(keeps_latex a _ _ _ h1).expand]; exact he
+    exact inv_latex b _ s1 s' i1 e1 ht.2 h
+  | .comp name n ops, bits, s, s', hinv, he, ht, h => by
+    simp only [topOk] at ht
+    simp only [latex] at h
+    obtain ⟨_, _, h⟩ := Res.bind_eq_ok.mp h
+    rw [if_pos he] at h
+    exact inv_latexSubs ops bits s s' hinv he ht h
+  | .loop iters body, bits, s, s', hinv, he, ht, h => by
+    simp only [topOk] at ht
+    simp only [latex] at h
+    obtain ⟨_, _, h⟩ := Res.bind_eq_ok.mp h
+    split at h
+    · injection h with h; subst h; exact hinv
+    · exact inv_latex body bits s s' hinv he ht h
+    · obtain ⟨s1, h1, h⟩ := Res.bind_eq_ok.mp h
+      have i1 := inv_latex body bits s s1 hinv he ht h1
+      have e1 : s1.expand = true := by rw [(keeps_latex body _ _ _ h1).expand]; exact he
+      exact inv_latex body bits s1 s' i1 e1 ht h
+    · split at h
+      · cases h
+      · obtain ⟨s1, h1, h⟩ := Res.bind_eq_ok.mp h
+        obtain ⟨s2, h2, h⟩ := Res.bind_eq_ok.mp h
+        obtain ⟨s3, h3, h⟩ := Res.bind_eq_ok.mp h
+        obtain ⟨s4, h4, h⟩ := Res.bind_eq_ok.mp h
+        have i1 := inv_startLoop hinv h1
+        have e1 : s1.expand = true := by rw [(keeps_startLoop h1).expand]; exact he
+        have i2 := inv_latex body _ s1 s2 i1 e1 ht h2
+        have e2 : s2.expand = true := by rw [(keeps_latex body _ _ _ h2).expand]; exact e1
+        have i3 := inv_addCds i2 h3
+        have e3 : s3.expand = true := by rw [(keeps_addCds h3).expand]; exact e2
+        have i4 := inv_latex body _ s3 s4 i3 e3 ht h4
+        exact inv_endLoop i4 h
+theorem inv_latexSubs : ∀ (ops : Subs) (bits : List Nat) (s s' : St), Inv s → s.expand = true →
+    topOkSubs ops bits = true → latexSubs ops bits s = .ok s' → Inv s'
+  | .nil, bits, s, s', hinv, _, _, h => by
+    simp only [latexSubs] at h; injection h with h; subst h; exact hinv
+  | .cons g sb rest, bits, s, s', hinv, he, ht, h => by
+    simp only [topOkSubs, Bool.and_eq_true] at ht
+    simp only [latexSubs] at h
+    split at h
+    · cases h
+    · rename_i gb hgb
+      rw [hgb] at ht
+      obtain ⟨s1, h1, h⟩ := Res.bind_eq_ok.mp h
+      have i1 := inv_latex g gb s s1 hinv he ht.1 h1
+      have e1 : s1.expand = true := by rw [(keeps_latex g _ _ _ h1).expand]; exact he
+      exact inv_latexSubs rest bits s1 s' i1 e1 ht.2 h
+end
+
+
+/-- Operations covered by the connector theorem (see `topOk` for gates). Conditional gates and
+`reset_all` are handled separately. -/
+def opOk : Op → Bool
+  | .gate g bits => topOk g bits
+  | .cond _ _ _ _ => false
+  | .resetAll => false
+  | _ => true
+
+theorem inv_opLatex {nq : Nat} {op : Op} {s s' : St} (hinv : Inv s) (he : s.expand = true) (hop : opOk op = true)
+    (h : opLatex nq op s = .ok s') : Inv s' := by
+  cases op with
+  | gate g bits => exact inv_latex g bits s s' hinv he hop h
+  | cond control target g bits => simp [opOk] at hop
+  | reset q => exact inv_setField hinv rfl h
+  | resetAll => simp [opOk] at hop
+  | measure q c b => exact inv_setMeasurement hinv h
+  | measureAll cbits b => exact inv_measureAllLoop hinv h
+  | peek q c b => simp [opLatex] at h
+  | peekAll cbits b => simp [opLatex] at h
+  | barrier qbits => exact inv_setBarrier hinv h
+
+theorem inv_opsLatex {nq : Nat} {ops : List Op} {s s' : St} (hinv : Inv s) (he : s.expand = true)
+    (hop : ∀ op ∈ ops, opOk op = true) (h : opsLatex nq ops s = .ok s') : Inv s' := by
+  induction ops generalizing s with
+  | nil => simp [opsLatex] at h; subst h; exact hinv
+  | cons op rest ih =>
+    simp only [opsLatex] at h
+    obtain ⟨s1, h1, h⟩ := Res.bind_eq_ok.mp h
+    have i1 := inv_opLatex hinv he (hop op (by simp)) h1
+    have e1 : s1.expand = true := by rw [(keeps_opLatex h1).expand]; exact he
+    exact ih (s := { s1 with cur := s1.cur + 1 }) (inv_of_fields i1 rfl rfl rfl rfl rfl) e1 (fun o ho => hop o (by simp [ho])) h
+
+theorem exportSt_inv {c : Circ} {s : St} (hop : ∀ op ∈ c.ops, opOk op = true) (h : exportSt c = .ok s) : Inv s :=
+  inv_opsLatex (inv_new c.nq c.nc) rfl hop h
+
+
+theorem mapOpt_getElem? {α β} (f : α → Option β) : ∀ (l : List α) (r : List β), mapOpt f l = some r →
+    ∀ i : Nat, r[i]? = (l[i]?).bind f
+  | [], r, h, i => by simp [mapOpt] at h; subst h; simp
+  | a :: as, r, h, i => by
+    simp only [mapOpt] at h
+    split at h
+    · rename_i b bs hb hbs
+      injection h with h; subst h
+      cases i with
+      | zero => simp [hb]
+      | succ i => simpa using mapOpt_getElem? f as bs hbs i
+    · cases h
+
+theorem mapOpt_length {α β} (f : α → Option β) : ∀ (l : List α) (r : List β), mapOpt f l = some r →
+    r.length = l.length
+  | [], r, h => by simp [mapOpt] at h; subst h; rfl
+  | a :: as, r, h => by
+    simp only [mapOpt] at h
+    split at h
+    · rename_i b bs hb hbs
+      injection h with h; subst h
+      simp [mapOpt_length f as bs hbs]
+    · cases h
+
+theorem grid_col_get {s : St} {g : Grid} (hg : grid s = some g) (r c : Nat) :
+    (g.col c)[r]? = (if r < s.total then (gridRow s r).map (fun row => row.getD c .empty) else none) := by
+  unfold Grid.col
+  rw [List.getElem?_map]
+  unfold grid at hg
+  rw [mapOpt_getElem? _ _ _ hg r]
+  by_cases h : r < s.total
+  · simp [h]
+  · simp [h]
+
+theorem gridRow_get {s : St} {r : Nat} {row : List Sym} (hrow : gridRow s r = some row) (c : Nat) {col : Column}
+    (hc : s.rcols.reverse[c]? = some col) : row[c]? = cellOf s.nq r col := by
+  unfold gridRow at hrow
+  cases hm : mapOpt (cellOf s.nq r) s.rcols.reverse with
+  | none => simp [hm] at hrow
+  | some cells =>
+    simp only [hm, Option.map_some, Option.some.injEq] at hrow
+    have hcell := mapOpt_getElem? _ _ _ hm c
+    rw [hc] at hcell
+    simp only [Option.bind_some] at hcell
+    have hlt : c < cells.length := by
+      rw [mapOpt_length _ _ _ hm]
+      rcases Nat.lt_or_ge c s.rcols.reverse.length with h | h
+      · exact h
+      · rw [List.getElem?_eq_none h] at hc; cases hc
+    subst hrow
+    split
+    · rw [List.getElem?_append_left hlt]; exact hcell
+    · exact hcell
+
+/-- Beyond the matrix columns a row holds only the closing wire. -/
+theorem gridRow_get_beyond {s : St} {r : Nat} {row : List Sym} (hrow : gridRow s r = some row) (c : Nat)
+    (hc : s.rcols.length ≤ c) : (row.getD c .empty).lines = [] := by
+  unfold gridRow at hrow
+  cases hm : mapOpt (cellOf s.nq r) s.rcols.reverse with
+  | none => simp [hm] at hrow
+  | some cells =>
+    simp only [hm, Option.map_some, Option.some.injEq] at hrow
+    have hl : cells.length = s.rcols.length := by rw [mapOpt_length _ _ _ hm]; simp
+    subst hrow
+    split
+    · rw [List.getD_eq_getElem?_getD, List.getElem?_append_right (by omega)]
+      rcases Nat.lt_or_ge (c - cells.length) 1 with h | h
+      · have : c - cells.length = 0 := by omega
+        rw [this]; simp only [List.getElem?_cons_zero, Option.getD_some]
+        split <;> rfl
+      · rw [List.getElem?_eq_none (by simpa using h)]; rfl
+    · rw [List.getD_eq_getElem?_getD, List.getElem?_eq_none (by omega)]; rfl
+
+
+theorem symAt_lt {col : Column} {t : Nat} {y : Sym} (h : symAt col t = some y) : t < col.length := by
+  unfold symAt at h
+  rcases Nat.lt_or_ge t col.length with hl | hl
+  · exact hl
+  · rw [List.getElem?_eq_none hl] at h; cases h
+
+theorem cellOf_of_symAt {nq t : Nat} {col : Column} {y : Sym} (h : symAt col t = some y) :
+    cellOf nq t col = some y := by
+  unfold symAt at h
+  unfold cellOf
+  split at h
+  · rename_i c hc; rw [hc]; simpa using h
+  · cases h
+
+theorem target_eq {n r t : Nat} {k : Int} (h : (r : Int) + k = (t : Int)) (ht : t < n) : target n r k = some t := by
+  unfold target
+  simp only [h]
+  have : (0 : Int) ≤ (t : Int) ∧ (t : Int) < (n : Int) := ⟨by omega, by omega⟩
+  simp [this]
+
+/-- **Transfer to the printed grid**: if every column of the matrix is connected, then in every
+column of the grid of symbols that `code` prints, every line of every cell ends inside the grid on a
+partner symbol (`Spec.QcGrid.linesOk`). -/
+theorem grid_lines_ok {s : St} (hs : Shape s) (hok : ∀ col ∈ s.rcols, ColOK col) {g : Grid}
+    (hg : grid s = some g) : ∀ (c r : Nat) (y : Sym), (g.col c)[r]? = some y → linesOk (g.col c) r y = true := by
+  intro c r y hy
+  have hlen : (g.col c).length = s.total := by
+    unfold Grid.col; rw [List.length_map]
+    unfold grid at hg
+    rw [mapOpt_length _ _ _ hg]; simp
+  rw [grid_col_get hg] at hy
+  split at hy
+  · rename_i hr
+    cases hrow : gridRow s r with
+    | none => rw [hrow] at hy; cases hy
+    | some row =>
+      rw [hrow] at hy
+      simp only [Option.map_some, Option.some.injEq] at hy
+      by_cases hcw : c < s.rcols.length
+      · have hcr : c < s.rcols.reverse.length := by simpa using hcw
+        have hc : s.rcols.reverse[c]? = some s.rcols.reverse[c] := List.getElem?_eq_getElem hcr
+        generalize hcol : s.rcols.reverse[c] = col at hc
+        have hmem : col ∈ s.rcols := by
+          have : col ∈ s.rcols.reverse := List.mem_of_getElem? hc
+          simpa using this
+        have hcl : col.length = s.total := hs.cols col hmem
+        have hget := gridRow_get hrow c hc
+        rw [List.getD_eq_getElem?_getD, hget] at hy
+        unfold linesOk
+        rw [List.all_eq_true]
+        intro ⟨k, kind⟩ hmemk
+        -- the cell is an explicit symbol (default wires have no lines)
+        have hsym : symAt col r = some y := by
+          unfold cellOf at hy
+          unfold symAt
+          have hrl : r < col.length := by omega
+          rw [List.getElem?_eq_getElem hrl] at hy ⊢
+          cases hcell : col[r] with
+          | none =>
+            rw [hcell] at hy
+            simp only [Option.getD_some] at hy
+            subst hy
+            split at hmemk <;> simp [Sym.lines] at hmemk
+          | some cell =>
+            rw [hcell] at hy
+            simpa using hy
+        obtain ⟨t, ht, y', hy', hp⟩ := hok col hmem r y hsym (k, kind) hmemk
+        have htl : t < s.total := by rw [← hcl]; exact symAt_lt hy'
+        dsimp only
+        rw [hlen, target_eq ht htl]
+        dsimp only
+        -- the target cell as printed
+        have hcellt : (g.col c)[t]? = some y' := by
+          rw [grid_col_get hg, if_pos htl]
+          obtain ⟨rowt, hrt, _⟩ := gridRow_shape s hs t htl
+          rw [hrt]
+          simp only [Option.map_some, Option.some.injEq]
+          rw [List.getD_eq_getElem?_getD, gridRow_get hrt c hc, cellOf_of_symAt hy']
+          rfl
+        rw [List.getD_eq_getElem?_getD, hcellt]
+        exact hp
+      · have hl := gridRow_get_beyond hrow c (by omega)
+        rw [hy] at hl
+        unfold linesOk
+        rw [hl]; rfl
+  · cases hy
+
 end Q1t.Proofs.Latex
